@@ -94,7 +94,13 @@ def run(ctx):
             if cls != 'Ok':
                 continue
             nok += 1
-            L = fact_literals(T, fn, facts)
+            from terms import literal_alternatives
+            alts = literal_alternatives(T, fn, facts)      # a check moved into a private helper that returned Ok is read through
+            L = set(fact_literals(T, fn, facts))
+            for a_ in alts:
+                if not (set(a_) >= L):
+                    pass
+            L = set.intersection(*[set(a_) for a_ in alts]) | L if alts else L
             req = {
                 'path non-empty': any(re.match(r'^!(str::)?is_empty\(path\)$', l) for l in L),
                 'no backslash': any(re.match(r'^!(str::)?contains\(path,', l) for l in L),
